@@ -18,7 +18,9 @@ use std::fmt;
 #[rustfmt::skip]
 fn compute_subscribe_packet_length_properties5(packet: &SubscribePacket) -> GneissResult<(u32, u32)> {
     let mut subscribe_property_section_length = compute_user_properties_length(&packet.user_properties);
-    add_optional_u32_property_length!(subscribe_property_section_length, packet.subscription_identifier);
+    if let Some(subscription_identifier) = packet.subscription_identifier {
+        subscribe_property_section_length += 1 + compute_variable_length_integer_encode_size(subscription_identifier as usize)?;
+    }
 
     let mut total_remaining_length : usize = 2 + compute_variable_length_integer_encode_size(subscribe_property_section_length)?;
     total_remaining_length += subscribe_property_section_length;
@@ -74,7 +76,7 @@ pub(crate) fn write_subscribe_encoding_steps5(packet: &SubscribePacket, _: &Enco
 
     encode_integral_expression!(steps, Uint16, packet.packet_id);
     encode_integral_expression!(steps, Vli, subscribe_property_length);
-    encode_optional_property!(steps, Uint32, PROPERTY_KEY_SUBSCRIPTION_IDENTIFIER, packet.subscription_identifier);
+    encode_optional_property!(steps, Vli, PROPERTY_KEY_SUBSCRIPTION_IDENTIFIER, packet.subscription_identifier);
     encode_user_properties!(steps, get_subscribe_packet_user_property, packet.user_properties);
 
     let subscriptions = &packet.subscriptions;
@@ -123,7 +125,15 @@ fn decode_subscribe_properties(property_bytes: &[u8], packet : &mut SubscribePac
         mutable_property_bytes = &mutable_property_bytes[1..];
 
         match property_key {
-            PROPERTY_KEY_SUBSCRIPTION_IDENTIFIER => { mutable_property_bytes = decode_optional_u32(mutable_property_bytes, &mut packet.subscription_identifier)?; }
+            PROPERTY_KEY_SUBSCRIPTION_IDENTIFIER => {
+                if packet.subscription_identifier.is_some() {
+                    return Err(GneissError::new_decoding_failure("decode_subscribe_properties - duplicate subscription identifier"));
+                }
+
+                let mut subscription_identifier : usize = 0;
+                mutable_property_bytes = decode_vli_into_mutable(mutable_property_bytes, &mut subscription_identifier)?;
+                packet.subscription_identifier = Some(subscription_identifier as u32);
+            }
             PROPERTY_KEY_USER_PROPERTY => { mutable_property_bytes = decode_user_property(mutable_property_bytes, &mut packet.user_properties)?; }
             _ => {
                 let message = format!("decode_subscribe_properties - invalid property type ({})", property_key);
